@@ -44,6 +44,7 @@ def shapes():
     out['and'] = (True, [fn('loop', P1, 'bool', [], call('and', call('ne', n, I(0), style='op'), call('loop', dec), style='op'))], 'bool1')
     out['if_error_fallback'] = (True, [fn('loop', P2, 'int', [], call('if', zero, acc, call('if_error', call('if', B(True), call('error', E('str', 'x')), I(0)), step)))], 'int2')
     out['opt_or'] = (True, [fn('loop', P1, 'opt', [], call('if', zero, call('some', I(7)), call('or', typed_none(), call('loop', dec), style='op')))], 'opt1')
+    out['opt_or_default'] = (True, [fn('loop', P2, 'int', [], call('if', zero, acc, call('or', typed_none(), step, style='op', coqname='or_unwrap')))], 'int2')
     out['map_or_default'] = (True, [fn('loop', P2, 'int', [], call('if', zero, acc, call('map_or', typed_none(), E('lam', [('q', 'int', None)], [], V('q')), step)))], 'int2')
     out['local_let_then_tail'] = (True, [fn('loop', P2, 'int', [D('let', 'k', call('add', acc, n, style='op'))], call('if', zero, acc, call('loop', dec, V('k'))))], 'int2')
     out['default_param'] = (True, [fn('loop', [('n', 'int', None), ('acc', 'int', I(0))], 'int', [], call('if', zero, acc, step))], 'int1d')
